@@ -30,6 +30,11 @@ def run(check: Check, repo: Repo, tier: str) -> None:
     L.token_count(check, repo)
     L.strip_always_lexes(check, repo)
     L.separator_table(check, repo)
+    L.block_print_table(check, repo)
+    L.lexer_ascii_classes(check, repo)
+    from checks.c01 import lex_bounds
+
+    lex_bounds(check, repo)
     L.block_string_steps(check, repo)
     L.hex_digit_table(check, repo)
     L.number_lookahead(check, repo)
